@@ -40,6 +40,17 @@ type H struct {
 	recPath      string
 	wg           sync.WaitGroup
 	hints        map[string]int
+	// schedule replay: which engine thread each recorded preemption held (boundary#hit -> thread
+	// ids), which engine thread the k-th h.Go call started, and when each thread first ran in the
+	// recorded schedule (after how many preemptions, after which threads had finished)
+	hintThreads map[string][]int
+	goThread    map[int]int
+	gates       map[int]schedGate
+	schedMu     sync.Mutex
+	goCalls     int
+	gThread     map[string]int // goroutine id -> engine thread
+	paused      int            // recorded preemptions that have been applied so far
+	finished    map[int]chan struct{}
 	// crash replay
 	windowOpen     bool
 	hits           int
@@ -49,6 +60,11 @@ type H struct {
 	failedFile     string
 	remoteServers  []*httptest.Server
 	remoteRequests []string
+}
+
+type schedGate struct {
+	preemptions int
+	finished    []int
 }
 
 type Record struct {
@@ -72,14 +88,34 @@ func NewReplay(path string) (*H, *Record, error) {
 	if err := json.Unmarshal(b, r); err != nil {
 		return nil, nil, err
 	}
-	h := &H{vals: r.Model, params: r.Params, counts: map[string]int{}, recPath: path, crashAt: -1, hints: map[string]int{}}
+	h := &H{vals: r.Model, params: r.Params, counts: map[string]int{}, recPath: path, crashAt: -1, hints: map[string]int{},
+		hintThreads: map[string][]int{}, goThread: map[int]int{}, gates: map[int]schedGate{}, gThread: map[string]int{}, finished: map[int]chan struct{}{}}
 	for _, n := range r.Notes {
 		// "preempt at point:NAME: thread a -> b"
 		if strings.HasPrefix(n, "preempt at point:") {
 			rest := strings.TrimPrefix(n, "preempt at point:")
 			if k := strings.Index(rest, ": thread"); k > 0 {
 				h.hints[rest[:k]]++
+				var a, b int
+				if _, err := fmt.Sscanf(rest[k:], ": thread %d -> %d", &a, &b); err == nil {
+					h.hintThreads[rest[:k]] = append(h.hintThreads[rest[:k]], a)
+				}
 			}
+		}
+		var k, t, np int
+		if _, err := fmt.Sscanf(n, "harness goroutine %d is thread %d", &k, &t); err == nil {
+			h.goThread[k] = t
+		}
+		if _, err := fmt.Sscanf(n, "thread %d starts after %d preemptions;", &t, &np); err == nil {
+			g := schedGate{preemptions: np}
+			if i := strings.Index(n, "finished: "); i >= 0 {
+				for _, f := range strings.Split(n[i+len("finished: "):], ",") {
+					if v, err := strconv.Atoi(strings.TrimSpace(f)); err == nil {
+						g.finished = append(g.finished, v)
+					}
+				}
+			}
+			h.gates[t] = g
 		}
 	}
 	return h, r, nil
@@ -338,11 +374,13 @@ func (h *H) SymbolicSched(preemptions int) {
 	if len(h.hints) == 0 {
 		return
 	}
-	var mu sync.Mutex
 	perG := map[string]map[string]int{} // goroutine -> boundary -> hits
+	h.schedMu.Lock()
+	h.gThread[goroutineID()] = 0 // the harness's own goroutine is thread 0
+	h.schedMu.Unlock()
 	verifhook.SetCallback(func(name string) {
 		g := goroutineID()
-		mu.Lock()
+		h.schedMu.Lock()
 		if perG[g] == nil {
 			perG[g] = map[string]int{}
 		}
@@ -350,9 +388,34 @@ func (h *H) SymbolicSched(preemptions int) {
 		key := fmt.Sprintf("%s#%d", name, perG[g][name])
 		n := h.hints[key]
 		if n > 0 {
-			h.hints[key] = n - 1
+			// the pause belongs to the goroutine that stands for the recorded thread; a goroutine the
+			// harness did not start (spawned by the code under test) takes a pause no known one owns
+			th, known := h.gThread[g]
+			owners := h.hintThreads[key]
+			mine := -1
+			for i, o := range owners {
+				if known && o == th {
+					mine = i
+					break
+				}
+				if !known && !h.isHarnessThread(o) {
+					mine = i
+					break
+				}
+			}
+			switch {
+			case len(owners) == 0: // a record without thread ids
+			case mine < 0:
+				n = 0
+			default:
+				h.hintThreads[key] = append(owners[:mine:mine], owners[mine+1:]...)
+			}
 		}
-		mu.Unlock()
+		if n > 0 {
+			h.hints[key] = n - 1
+			h.paused++
+		}
+		h.schedMu.Unlock()
 		if n > 0 {
 			time.Sleep(time.Duration(slowFactor()) * 300 * time.Millisecond)
 		}
@@ -387,8 +450,23 @@ func (h *H) Yield() {}
 // timeout (a deadlock), under gosx a deadlock is reported by the engine.
 func (h *H) Go(f func()) {
 	h.wg.Add(1)
+	h.schedMu.Lock()
+	h.goCalls++
+	th, known := h.goThread[h.goCalls]
+	done := make(chan struct{})
+	if known {
+		h.finished[th] = done
+	}
+	h.schedMu.Unlock()
 	go func() {
 		defer h.wg.Done()
+		defer close(done)
+		if known {
+			h.schedMu.Lock()
+			h.gThread[goroutineID()] = th
+			h.schedMu.Unlock()
+			h.awaitGate(th)
+		}
 		f()
 	}()
 	// the engine's default policy runs a new thread until it blocks or ends before the spawner
@@ -397,6 +475,53 @@ func (h *H) Go(f func()) {
 	// recorded preemptions the pauses at the recorded boundaries order the goroutines instead.
 	if len(h.hints) == 0 {
 		time.Sleep(time.Duration(slowFactor()) * 40 * time.Millisecond)
+	}
+}
+
+func (h *H) isHarnessThread(t int) bool {
+	if t == 0 {
+		return true
+	}
+	for _, x := range h.goThread {
+		if x == t {
+			return true
+		}
+	}
+	return false
+}
+
+// awaitGate holds a goroutine started by h.Go back until the point of the
+// recorded schedule at which its thread first ran: the recorded number of
+// preemptions have been applied and the threads that had finished by then
+// have finished. It gives up after a while (the pauses only approximate the
+// recorded schedule; a replay that does not reproduce is reported as such).
+func (h *H) awaitGate(th int) {
+	g, ok := h.gates[th]
+	if !ok {
+		return
+	}
+	deadline := time.Now().Add(time.Duration(slowFactor()) * 2 * time.Second)
+	for time.Now().Before(deadline) {
+		h.schedMu.Lock()
+		open := h.paused >= g.preemptions
+		var waitFor []chan struct{}
+		for _, f := range g.finished {
+			if c, ok := h.finished[f]; ok {
+				waitFor = append(waitFor, c)
+			}
+		}
+		h.schedMu.Unlock()
+		for _, c := range waitFor {
+			select {
+			case <-c:
+			default:
+				open = false
+			}
+		}
+		if open {
+			return
+		}
+		time.Sleep(time.Millisecond)
 	}
 }
 
